@@ -87,3 +87,10 @@ impl RecvRateSet {
     }
 }
 
+
+#[cfg(uflow_verif)]
+impl RecvRateSet {
+    pub fn verif_entries(&self) -> Vec<(u32, u64, bool)> {
+        self.entries.iter().map(|e| (e.value, e.timestamp_ms, e.is_initial)).collect()
+    }
+}
